@@ -3,7 +3,7 @@
 # worktrees of /repo (never /repo itself) and writes seeded/matrix.log; tools/seeded_table.py turns it into the table of DESIGN.md
 cd /verif
 extra() { case $1 in
-  C01_*) echo C07;; C05_m1) echo C07;; C05_m2) echo C08;; C06_m2) echo C07;; C07_m1) echo C01;; C07_m2) echo C05;; C17_m2) echo C18;; esac; }
+  C01_m1|C01_m2) echo C07;; C05_m1) echo C07;; C07_m3) echo C01;; C04_m4) echo C13;; C05_m2) echo C08;; C06_m2) echo C07;; C07_m1) echo C01;; C07_m2) echo C05;; C17_m2) echo C18;; esac; }
 ids="$@"; [ -z "$ids" ] && ids=$(ls seeded | grep '^C[0-9]*_m[0-9]*$')
 log=seeded/matrix.log
 for id in $ids; do
